@@ -117,8 +117,29 @@ def make_case(unit):
             specs.append(sim.CubeSpec(
                 [("ca_items", ca), ("ca_cats", ca),
                  ("mr" if isinstance(col, sim.MRVar) else "cat", col)], w))
+        trs = [{} for _ in specs]
+        if g.chance(0.6):
+            # the categories are the *rows* of every strand and slice: rows transforms must
+            # reach them (and columns transforms must not) in the CA-as-0th cube as well
+            from .. import transforms as T
+
+            vids = [c["id"] for c in ca.valid_cats]
+            mids = [c["id"] for c in ca.cats if c.get("missing")]
+            for j, tr in enumerate(trs):
+                rd = {}
+                if g.chance(0.7):
+                    rd["insertions"] = gen.gen_insertions(g, vids, mids, hide_some=False)
+                els = T.random_hides(g, vids, p=0.5)
+                if els:
+                    rd["elements"] = els
+                if g.chance(0.3):
+                    rd["order"] = {"type": "explicit", "element_ids": g.r.sample(vids, len(vids))}
+                if rd:
+                    tr["rows_dimension"] = rd
+                if j == 0 and g.chance(0.5) and vids:
+                    tr["columns_dimension"] = {"elements": {str(g.pick(vids)): {"hide": True}}}
         return {"mode": mode, "specs": [sim.spec_to_dict(s) for s in specs],
-                "transforms_list": [{} for _ in specs], "population": 500}
+                "transforms_list": trs, "population": 500}
     # numeric summary
     x = g.num(N)
     mset = g.pick([("mean",), ("mean", "stddev"), ("sum",), ("mean", "valid_counts")])
